@@ -290,6 +290,18 @@ def check_option_spellings(fx, rep):
         for x in A.nodes(it.get('body') or []):
             if x.get('k') == 'str' and isinstance(x.get('value'), str):
                 lits.add(x['value'])
+        # named string constants of the same file that the function mentions (`const OPTION_IDENT: &str = "Option"`)
+        named = {}
+        for fn2, f2 in fx.tpl.files.items():
+            if fn2 != fn:
+                continue
+            for y in A.nodes(f2.get('items') or []):
+                if y.get('k') == 'const' and isinstance(y.get('expr'), dict) and y['expr'].get('k') == 'str':
+                    named[y.get('name')] = y['expr'].get('value')
+        body_txt = ' '.join(A.text(x) for x in A.nodes(it.get('body') or []) if x.get('k') == 'path')
+        for nm_, val_ in named.items():
+            if nm_ and re.search(r'\b%s\b' % re.escape(nm_), body_txt):
+                lits.add(val_)
         missing = []
         for w in NEED:
             # recognised by an exact literal, or (for the qualified forms) by a suffix literal that the spelling itself ends with
